@@ -198,6 +198,8 @@ DropEnd ==
   /\ Req("C04", Ev.lock # 1)
   /\ Req("C05", Ev.lock # 1 /\ Ev.panics <= 1)
   /\ Req("C05", s.unwinding => Ev.outcome = "ok")        \* nothing is raised while unwinding
+  \* unwinding restores every faked function and gives every trampoline back
+  /\ Req("C05", s.unwinding => ((\A f \in DOMAIN s.mem : s.mem[f] = s.orig[f]) /\ s.live = {}))
   /\ Req("C06", ~s.unwinding => ExitVerdictOk)
   /\ Req("C07", ~s.unwinding => ExitVerdictOk)
   /\ s' = [s EXCEPT !.phase = "idle", !.kind = "none", !.lives = @ + 1, !.live = {}, !.dirty = {},
